@@ -29,6 +29,19 @@ def V(name, fn, contract, reach, two=False, attached_reach=None, self_reach=None
     return out
 
 
+# prepend(const Buffer&): the self-argument class goes through a temporary copy and is slow
+# with everything inlined (thorough tier only).
+_PB = ("Buffer::prepend(this|%s)" % CREF, "c_Buffer_prepend_buf")
+_PINNER = ("Buffer::prepend(this|%s)" % DATA, "c_Buffer_prepend")
+PREPEND_BUF = [
+    U("prepend_buf", _PB[0], _PB[1], ["prepend_buf.other"], defs=["NV_KINDS=3", "NV_ALIAS=0"],
+      cost=100),
+    U("prepend_buf@attached", _PB[0], _PB[1], ["prepend_buf.other"], entry="h_prepend_buf",
+      defs=["NV_KINDS=4", "NV_ALIAS=0"]),
+    U("prepend_buf@self", _PB[0], _PB[1], ["prepend_buf.self"], entry="h_prepend_buf",
+      defs=["NV_KINDS=7", "NV_ALIAS=1"], object_bits=9, tier="thorough", timeout=3000, cost=1000),
+]
+
 UNITS = [
     U("layout", None, None, replace=[], min_obligations=1),
     U("ctor_default", "Buffer::Buffer(this)", "c_Buffer_ctor_default", ["ctor_default.return"]),
@@ -49,8 +62,7 @@ UNITS = [
       attached_reach=["ne.false", "ne.true_content"]) \
   + V("prepend", "Buffer::prepend(this|%s)" % DATA, "c_Buffer_prepend",
       ["prepend.realloc", "prepend.move", "prepend.headroom"], attached_reach=["prepend.realloc"], cost=100) \
-  + V("prepend_buf", "Buffer::prepend(this|%s)" % CREF, "c_Buffer_prepend_buf", ["prepend_buf.other"], two=True,
-      attached_reach=["prepend_buf.other"], self_reach=["prepend_buf.self"], cost=100) \
+  + PREPEND_BUF \
   + V("append", "Buffer::append(this|%s)" % DATA, "c_Buffer_append", ["append.realloc", "append.inplace"],
       attached_reach=["append.realloc"], cost=100) \
   + V("append_buf", "Buffer::append(this|%s)" % CREF, "c_Buffer_append_buf", ["append_buf.other"], two=True,
